@@ -10,7 +10,6 @@ import PyIkev2.Proofs.Handlers
 namespace PyIkev2.Impl
 open PyIkev2
 
-abbrev Key := Bytes × Nat × Bytes
 
 def kidKeys (x : XSa) (c : Child) : List Key := [outKey x c, inKey x c]
 def keysX (x : XSa) : List Key := x.ext.kids.flatMap (kidKeys x)
@@ -320,13 +319,6 @@ macro "keeps_s2" : tactic => `(tactic| repeat' (first
 end sad
 
 /-! ### the SAD the model keeps is what the emitted requests make of the SAD the call started with -/
-
-/-- the kernel's reaction to one request (a refused NEWSA is listed but has no effect; NEWSA of a key it holds and DELSA of one
-    it does not hold are refused) -/
-def applyNl (sad : List Key) : NlOp → List Key
-  | .newSa d q s => if sad.contains (d, q, s) then sad else sad ++ [(d, q, s)]
-  | .delSa d q s => sad.filter fun e => e ≠ (d, q, s)
-  | _ => sad
 
 def OpsI (sad0 : List Key) (s : HSt) : Prop := s.sad = s.nl.foldl applyNl sad0
 
